@@ -1,6 +1,6 @@
 """C17 helpers: abstract <-> concrete for stream items, stages, sources; instrumented
 source; running a real Iter pipeline and projecting what the property names."""
-from glom import glom, Iter, Invoke, T, SKIP, STOP
+from glom import glom, Iter, Invoke, T, SKIP, STOP, Spec, Check
 
 SENT = {'SKIP': SKIP, 'STOP': STOP}
 
@@ -70,8 +70,35 @@ def _odd(x):
     return type(x) is int and x % 2 == 1
 
 
+def _item0(x):
+    return x[0]
+
+
+def _cnt0(x):
+    return x.count(0)
+
+
+def _notnone(x):
+    return x is not None
+
+
+def _even(x):
+    return type(x) is int and x % 2 == 0
+
+
+def _isempty(x):
+    return type(x) in (list, tuple) and len(x) == 0
+
+
+# name -> glom spec.  The suffix is the spelling (GlomStream!Spelling): plain Python callable, _T a T
+# expression, _str a path string, _tup a tuple chain, _spec Spec(..), _check a Check (filter only).
 FNS = {'T': T, 'inc': _inc, 'skip_odd': _skip_odd, 'stop_at2': _stop_at2, 'dup': _dup, 'mod2': _mod2,
-       'lt2': _lt2, 'odd': _odd}
+       'lt2': _lt2, 'odd': _odd, 'item0': _item0, 'cnt0': _cnt0, 'notnone': _notnone, 'even': _even,
+       'isempty': _isempty,
+       'item0_T': T[0], 'item0_str': '0', 'item0_spec': Spec(T[0]), 'cnt0_T': T.count(0),
+       'inc_tup': (T, _inc), 'inc_spec': Spec(_inc), 'mod2_tup': (T, _mod2),
+       'lt2_tup': (T, _lt2), 'lt2_spec': Spec(_lt2), 'lt2_check': Check(validate=_lt2, default=SKIP),
+       'odd_spec': Spec(_odd)}
 
 
 # ---- specs -----------------------------------------------------------------------------------
@@ -118,6 +145,8 @@ def add_stage(spec, st, alt_spelling=False):
             return spec.split(**kw)
         if st['f'] == 'scalar':
             return spec.split(sep=dec(st['v']), **kw)
+        if st['f'] == 'fn':                    # a callable separator, named by a string value
+            return spec.split(sep=FNS[st['v']['s']], **kw)
         return spec.split(sep=[dec(st['v'])], **kw)
     if k == 'flatten':
         return spec.flatten()
